@@ -66,6 +66,18 @@ impl Stats {
         if plan.features.is_empty() {
             bump("plan:no_feature_at_all");
         }
+        if plan.features.len() >= 2 && plan.features.iter().enumerate().any(|(i, f)| plan.features[..i].iter().any(|g| g.name == f.name && g.path == f.path && g.scenarios.len() == f.scenarios.len() && g.scenarios.iter().zip(&f.scenarios).all(|(x, y)| x.name == y.name))) && plan.features.last().is_some_and(|f| plan.features[..plan.features.len() - 1].iter().any(|g| serde_json::to_string(g).ok() == serde_json::to_string(f).ok())) {
+            bump("plan:same_feature_twice");
+        }
+        if plan.features.len() >= 18 {
+            bump("plan:many_features");
+        }
+        if plan.pipeline {
+            bump("plan:through_cucumber_pipeline");
+        }
+        if !plan.filtered_rules.is_empty() {
+            bump("plan:filter_rejects_a_rule");
+        }
         if plan.behaviours.values().flatten().any(|b| b.eager) {
             bump("plan:eager_panic_planned");
         }
@@ -397,25 +409,7 @@ impl Stats {
     pub fn absorb_b(&mut self, plan: &Plan, bh: &crate::runb::BHistory) {
         self.absorb_plan_shape(plan);
         // reuse the world-A accounting over the raw stream
-        let h = History {
-            events: bh.raw.clone(),
-            event_poll: Vec::new(),
-            quiescent: Vec::new(),
-            cb: bh.cb.clone(),
-            parser: bh.parser.clone(),
-            end: if bh.end == RunEnd::Panicked && bh.panic_msg.as_deref().is_some_and(|m| m.contains("failed") || m.contains("error")) { RunEnd::Finished } else { bh.end },
-            stream_ended: true,
-            items_after_finished: 0,
-            escaped_panic: None,
-            hook_count_during: 0,
-            hook_restored: true,
-            stats: bh.stats.clone(),
-            probes: BTreeMap::new(),
-            dispatch_times: Vec::new(),
-            sched_digest: bh.sched_digest,
-            sched_trace: Vec::new(),
-            max_in_callbacks: 0,
-        };
+        let h = bhistory_as_history(bh);
         self.absorb_history(plan, &h);
         self.bump("sink_short_write", bh.short_writes);
         self.bump("sink_interrupted", bh.interrupts);
@@ -592,11 +586,48 @@ pub fn execute_r(prop: &str, plan: &Rc<Plan>) -> Result<Executed, String> {
 }
 
 /// Runs `plan` in world B and evaluates `prop`'s oracle.
+/// The raw stream of a world-B run (tapped between runner and writers) as a world-A history.
+pub fn bhistory_as_history(bh: &crate::runb::BHistory) -> History {
+    History {
+        events: bh.raw.clone(),
+        event_poll: Vec::new(),
+        quiescent: Vec::new(),
+        cb: bh.cb.clone(),
+        parser: bh.parser.clone(),
+        end: if bh.end == RunEnd::Panicked && bh.panic_msg.as_deref().is_some_and(|m| m.contains("failed") || m.contains("error")) { RunEnd::Finished } else { bh.end },
+        stream_ended: true,
+        items_after_finished: 0,
+        escaped_panic: None,
+        hook_count_during: 0,
+        hook_restored: true,
+        stats: bh.stats.clone(),
+        probes: BTreeMap::new(),
+        dispatch_times: Vec::new(),
+        sched_digest: bh.sched_digest,
+        sched_trace: Vec::new(),
+        max_in_callbacks: 0,
+    }
+}
+
 pub fn execute_b(prop: &str, plan: &Rc<Plan>) -> Result<Executed, String> {
     let bh = crate::runb::run_world_b(plan)?;
     let mut v = Vec::new();
     match prop {
-        "C01" => crate::oracle_b::c01(plan, &bh, &mut v),
+        "C01" => {
+            crate::oracle_b::c01(plan, &bh, &mut v);
+            // The verdict is judged against the event stream; whether that stream says what the plan
+            // dictates (an ambiguous step IS a failure, an undefined one IS skipped ...) is the canonical
+            // sequence check, applied here to the stream the writers were given.
+            if v.is_empty() && matches!(bh.raw.last().map(|e| &e.k), Some(K::RunFinished)) {
+                let h = bhistory_as_history(&bh);
+                let a = Analysis::new(plan, &h);
+                let mut w = Vec::new();
+                oracle_a::c02(&a, &mut w);
+                if let Some(first) = w.into_iter().next() {
+                    v.push(Violation::new("C01", "verdict-of-a-stream-the-plan-does-not-dictate", format!("the verdict follows the stream, but the stream is not what the plan dictates: {}", first.msg)).attr("what", first.attrs.get("what").cloned().unwrap_or_default()));
+                }
+            }
+        }
         _ => return Err(format!("harness: {prop} is not a world-B property")),
     }
     Ok(Executed { violations: v, history: None, chistory: None, bhistory: Some(bh), rhistory: None })
@@ -618,7 +649,8 @@ pub fn execute_c(prop: &str, plan: &Rc<Plan>) -> Result<Executed, String> {
 
 /// Runs `plan` in world A and evaluates `prop`'s oracle.
 pub fn execute_a(prop: &str, plan: &Rc<Plan>) -> Result<Executed, String> {
-    let h = runa::run_world_a(plan)?;
+    let run = |p: &Rc<Plan>| if p.pipeline { crate::runp::run_world_p(p) } else { runa::run_world_a(p) };
+    let h = run(plan)?;
     let violations = {
         let a = Analysis::new(plan, &h);
         let mut v = oracle_a::run_oracle(prop, &a);
@@ -631,11 +663,37 @@ pub fn execute_a(prop: &str, plan: &Rc<Plan>) -> Result<Executed, String> {
                 p2.cfg.cli_fail_fast = false;
                 p2.cfg.builder_fail_fast = false;
                 let p2 = Rc::new(p2);
-                let h2 = runa::run_world_a(&p2)?;
+                let h2 = run(&p2)?;
                 let a2 = Analysis::new(&p2, &h2);
                 let (s1, s2) = (oracle_a::outcome_signature(&a), oracle_a::outcome_signature(&a2));
                 if s1 != s2 {
                     v.push(Violation::new("C08", "fail-fast-changes-outcomes", format!("nothing failed, yet per-scenario outcomes differ between fail-fast and normal run:\n ff: {s1:?}\n normal: {s2:?}")));
+                }
+            }
+        }
+        if prop == "C05" && plan.pipeline && v.is_empty() && a.complete() {
+            // differential: the retry budget of a scenario is a function of the configuration only, so the
+            // same plan configured on `runner::Basic` directly (world A) and through the `Cucumber`
+            // builder's forwarding methods (world P) must give every scenario the same budget
+            let mut p2 = (**plan).clone();
+            p2.pipeline = false;
+            let p2 = Rc::new(p2);
+            let h2 = runa::run_world_a(&p2)?;
+            let a2 = Analysis::new(&p2, &h2);
+            let budgets = |x: &Analysis<'_>| -> BTreeMap<(String, usize), Option<usize>> {
+                x.by_scenario.iter().filter_map(|(k, idxs)| idxs.first().map(|i| ((k.0.clone(), 0usize), x.attempts[*i].retries.map(|r| r.0 + r.1)))).collect()
+            };
+            let (b1, b2) = (budgets(&a), budgets(&a2));
+            for (k, n1) in &b1 {
+                if let Some(n2) = b2.get(k) {
+                    if n1 != n2 && !a.twin_names.contains(&k.0) {
+                        v.push(Violation::new(
+                            "C05",
+                            "budget-differs-between-builders",
+                            format!("scenario {}: retry budget {n1:?} when configured through the Cucumber builder, {n2:?} when the same options are set on runner::Basic", k.0),
+                        ));
+                        break;
+                    }
                 }
             }
         }
